@@ -1,6 +1,12 @@
 package syncx
 
-import "sync"
+import (
+	"errors"
+	"sync"
+)
+
+// errCallAborted is what the callers sharing a call get when its function did not return.
+var errCallAborted = errors.New("the shared call did not return: it panicked or its goroutine exited")
 
 type (
 	// SingleFlight lets the concurrent calls with the same key to share the call result.
@@ -70,6 +76,9 @@ func (g *flightGroup) createCall(key string) (c *call, done bool) {
 }
 
 func (g *flightGroup) makeCall(c *call, key string, fn func() (any, error)) {
+	// set until fn has returned, so that the callers sharing this call
+	// don't take a panic (or runtime.Goexit) in fn for a nil result.
+	c.err = errCallAborted
 	defer func() {
 		g.lock.Lock()
 		delete(g.calls, key)
